@@ -274,7 +274,7 @@ import (
 
 const gsxRule = "package gorules\n\nimport \"github.com/quasilyte/go-ruleguard/dsl\"\n\nfunc gated(m dsl.Matcher) {\n\tm.Match(` + "`gsxTarget($x)`" + `).Where(m.GoVersion().GreaterEqThan(\"1.18\")).Report(\"needs go1.18\")\n}\n"
 
-const gsxProg = "package cand\n\nfunc gsxTarget(x int) {}\n\nfunc f() { gsxTarget(1) }\n"
+const gsxProg = "package cand\n\nimport \"time\"\n\nfunc gsxTarget(x int) {}\n\nfunc f(t time.Time, p *time.Time) int64 { gsxTarget(1); return t.Unix()/1000 + p.Unix()/1000 }\n"
 
 func TestGSXRuleVersion(t *testing.T) {
 	_ = checkers.InitEmbeddedRules // the package's own test init has registered the embedded rules
@@ -288,37 +288,55 @@ func TestGSXRuleVersion(t *testing.T) {
 	}
 	tinfo := &types.Info{Types: map[ast.Expr]types.TypeAndValue{}, Defs: map[*ast.Ident]types.Object{}, Uses: map[*ast.Ident]types.Object{},
 		Implicits: map[ast.Node]types.Object{}, Selections: map[*ast.SelectorExpr]*types.Selection{}, Scopes: map[ast.Node]*types.Scope{}}
-	pkg, err := (&types.Config{Importer: importer.Default()}).Check("cand", fset, []*ast.File{f}, tinfo)
+	pkg, err := (&types.Config{Importer: importer.ForCompiler(fset, "source", nil)}).Check("cand", fset, []*ast.File{f}, tinfo)
 	if err != nil {
 		t.Fatal(err)
 	}
-	for _, ver := range []string{"1.17", "1.18"} {
-		var info *linter.CheckerInfo
-		for _, x := range linter.GetCheckersInfo() {
-			if x.Name == "ruleguard" {
-				info = x
+	// kind: which checker; gate: the first version under which its rule may fire
+	for _, kind := range []struct{ name, below, at string }{{"ruleguard", "1.17", "1.18"}, {"timeExprSimplify", "1.16", "1.17"}} {
+		for _, order := range []string{"version-then-checker", "checker-then-version"} {
+			for _, ver := range []string{kind.below, kind.at} {
+				var info *linter.CheckerInfo
+				for _, x := range linter.GetCheckersInfo() {
+					if x.Name == kind.name {
+						info = x
+					}
+				}
+				if info == nil {
+					t.Fatalf("no checker %s", kind.name)
+				}
+				if kind.name == "ruleguard" {
+					info.Params["rules"].Value = rules
+				}
+				ctx := linter.NewContext(fset, types.SizesFor("gc", "amd64"))
+				ctx.SetPackageInfo(tinfo, pkg)
+				if order == "version-then-checker" {
+					ctx.SetGoVersion(ver)
+				}
+				c, err := linter.NewChecker(ctx, info)
+				if err != nil {
+					t.Fatal(err)
+				}
+				if order == "checker-then-version" {
+					ctx.SetGoVersion(ver)
+				}
+				ctx.SetFileInfo("cand.go", f)
+				ws := c.Check(f)
+				gated := "below"
+				if ver == kind.at {
+					gated = "at"
+				}
+				fmt.Printf("GSX-VERSION\t%s\t%s\t%s\t%s\t%d\n", kind.name, order, gated, ver, len(ws))
 			}
 		}
-		info.Params["rules"].Value = rules
-		ctx := linter.NewContext(fset, types.SizesFor("gc", "amd64"))
-		ctx.SetGoVersion(ver)
-		ctx.SetPackageInfo(tinfo, pkg)
-		c, err := linter.NewChecker(ctx, info)
-		if err != nil {
-			t.Fatal(err)
-		}
-		ctx.SetFileInfo("cand.go", f)
-		ws := c.Check(f)
-		fmt.Printf("GSX-VERSION\t%s\t%d\n", ver, len(ws))
 	}
 }
 `
 
-// replayRuleVersion: a user rule gated on Go >= 1.18 must stay silent when the configured version is 1.17.
+// replayRuleVersion: a version-gated rule (a user rule gated on Go >= 1.18, the shipped timeExprSimplify
+// gated on 1.17) must stay silent under a lower configured version, whether the version was
+// configured before or after the checker was created, and must fire at the gate version.
 func replayRuleVersion(rc *runCtx, h *harness, v *interp.Violation, file string) (bool, string) {
-	if !strings.Contains(v.Msg, "user-rules checker") {
-		return false, "no native replay for the embedded-rules hand-over (engine model only)"
-	}
 	tmp, err := os.MkdirTemp("", "gsx-rulever-")
 	if err != nil {
 		return false, err.Error()
@@ -331,8 +349,26 @@ func replayRuleVersion(rc *runCtx, h *harness, v *interp.Violation, file string)
 	if err != nil {
 		return false, err.Error()
 	}
-	if strings.Contains(out, "GSX-VERSION\t1.17\t1") {
-		return true, "a user rule filtered with GoVersion().GreaterEqThan(\"1.18\") reports under -go=1.17: the configured version never reaches the engine"
+	wantUser := strings.Contains(v.Msg, "user-rules checker")
+	seen := 0
+	for _, l := range strings.Split(out, "\n") {
+		p := strings.Split(strings.TrimSpace(l), "\t")
+		if len(p) != 6 || p[0] != "GSX-VERSION" {
+			continue
+		}
+		seen++
+		if (p[1] == "ruleguard") != wantUser {
+			continue
+		}
+		if p[3] == "below" && p[5] != "0" {
+			return true, fmt.Sprintf("%s checker (%s): a rule gated on a newer Go version reports %s diagnostic(s) with -go=%s configured", p[1], p[2], p[5], p[4])
+		}
+		if p[3] == "at" && p[5] == "0" {
+			return true, fmt.Sprintf("%s checker (%s): a version-gated rule stays silent with -go=%s configured (the gate version)", p[1], p[2], p[4])
+		}
 	}
-	return false, "native: " + lastLines(out, 3)
+	if seen == 0 {
+		return false, "native: " + lastLines(out, 3)
+	}
+	return false, "the real checkers honour the configured version in both orders"
 }
